@@ -107,6 +107,46 @@ def run(c, replay):
             continue
         nex += monitors(c, run_, C.describe(run_))
         rounds += sum(1 for x in run_["trace"] if x["kind"] == "GVT" and x["rid"] == 0)
+    # ---- two ranks under the simulated network (harness/netshim.c): remote messages stay in flight across rounds; every rank's threads
+    # must never extract below a GVT they have been told
+    from concurrent.futures import ThreadPoolExecutor
+    nmr = 10 if c.tier == "quick" else 100
+    mrjobs = []
+    for k in range(nmr):
+        p = progen.gen_program(r, lps=r.choice([2, 4, 6, 8]), target=r.choice([100, 200, 400]), zero_ts=(k % 3 == 0))
+        text = progen.render(p)
+        pf = os.path.join(ctx["sd"], "mr%d.txt" % k)
+        open(pf, "w").write(text)
+        mrjobs.append((k, p, text, pf, r.choice([1, 1, 2]), r.choice([1, 3]), r.choice([50, 100, 200]),
+                       r.choice(["100,3000,3,%d", "0,5000,5,%d", "300,8000,10,%d"]) % (c.seed * 13 + k)))
+
+    def mr_one(job):
+        k, p, text, pf, th, ck, gp, net = job
+        tf = os.path.join(ctx["sd"], "mrtrace%d.txt" % k)
+        res = S.run_sim(ctx["exe"], pf, threads=th, ckpt=ck, gvt=gp, ranks=2, net=net, trace_file=tf, trace_mask=S.mask("GVT", "GVT_DRAIN", "EXTRACT"),
+                        watchdog=25, timeout=60)
+        traces = []
+        for rk in range(2):
+            f = "%s.rank%d" % (tf, rk)
+            traces.append(S.read_trace(f))
+            if os.path.exists(f):
+                os.remove(f)
+        return job, res, traces
+    with ThreadPoolExecutor(3) as ex:
+        mrres = list(ex.map(mr_one, mrjobs))
+    mr_ok = 0
+    for (k, p, text, pf, th, ck, gp, net), res, traces in mrres:
+        desc = dict(threads=th, checkpoint_interval=ck, gvt_period_us=gp, ranks=2, network_delays=net, cmd=res.cmd)
+        if res.sanitizer:
+            C.sanitizer_violation(c, res, text, desc)
+            continue
+        if not res.returned:
+            continue
+        mr_ok += 1
+        for rk, tr in enumerate(traces):
+            d2 = dict(desc); d2["rank"] = rk
+            nex += monitors(c, dict(trace=tr, prog=dict(text=text)), d2)
+    c.cov["two_rank_runs_monitored"] = mr_ok
     # ---- cooperatively scheduled runs: schedules from VERIF_SEED, uniform and long strides; exact replay of the phase protocol
     nsched = 10 if c.tier == "quick" else 200
     replayed, corr_bad, sched_ok = 0, None, 0
